@@ -29,7 +29,7 @@ case "$ENGINE" in
   tsan|asan)
     if [ "$ENGINE" = tsan ]; then
       FLAGS="-Zsanitizer=thread -Cunsafe-allow-abi-mismatch=sanitizer"; STD="-Zbuild-std"
-      export TSAN_OPTIONS="halt_on_error=1:exitcode=66:report_signal_unsafe=0:log_path=$ROOT/$REPORT"
+      export TSAN_OPTIONS="halt_on_error=1:exitcode=66:report_signal_unsafe=0:suppressions=$(pwd)/tools/tsan.supp:log_path=$ROOT/$REPORT"
     else
       FLAGS="-Zsanitizer=address -Cforce-frame-pointers=yes"; STD=""
       export ASAN_OPTIONS="detect_leaks=0:halt_on_error=1:abort_on_error=0:exitcode=66:log_path=$ROOT/$REPORT"
@@ -72,14 +72,20 @@ case "$ENGINE" in
     status clean 0 ""; exit 0 ;;
   miri)
     # companion binary <bin>_miri in package v_miri: pure-Rust crates only, small multi-thread workloads,
-    # several Miri scheduler seeds; prints "MIRI-<ID> done ..." summary lines that merge_san.py reads
+    # several Miri scheduler seeds; prints "MIRI-<ID> done ..." summary lines that merge_san.py reads.
+    # -Zmiri-permissive-provenance: parking_lot_core's word lock casts integers to pointers (dependency
+    # code, not /repo); without the flag every process prints a long warning about it.
     NSEEDS="${VERIF_MIRI_SEEDS:-8}"
-    ( cd harness && MIRIFLAGS="-Zmiri-disable-isolation -Zmiri-many-seeds=0..$NSEEDS -Zmiri-many-seeds-keep-going" \
+    ( cd harness && MIRIFLAGS="-Zmiri-disable-isolation -Zmiri-permissive-provenance -Zmiri-many-seeds=0..$NSEEDS -Zmiri-many-seeds-keep-going" \
         CARGO_TARGET_DIR="$ROOT/harness/target-miri" \
         timeout 3000 cargo +nightly miri run --offline -q -p v_miri --bin "${BIN}_miri" -- "$SEED" ) > "$LOG" 2>&1
     rc=$?
-    if grep -qE "Undefined Behavior|Data race detected|error: unsupported operation|memory leaked" "$LOG"; then
+    if grep -qE "Undefined Behavior|Data race detected|error: unsupported operation|memory leaked|error: deadlock" "$LOG"; then
       violation "$LOG"; status violated 1 "miri report"; exit 1
+    fi
+    # a panic inside the code under test (not in the harness) is a violation, as in the native monitors
+    if grep -qE "panicked at (/repo/|[^ ]*/rs/anda_)" "$LOG"; then
+      grep -E "panicked at " "$LOG" | head -3; violation "$LOG"; status violated 1 "panic in the code under test under miri"; exit 1
     fi
     if grep -q "^MIRI-$ID violation" "$LOG"; then
       grep "^MIRI-$ID violation" "$LOG" | head -5; violation "$LOG"; status violated 1 "model mismatch under miri"; exit 1
